@@ -78,3 +78,4 @@ Definition r_checksum l := match l with Remote _ _ c _ _ _ => c | _ => "" end.
 Definition r_slot l := match l with Remote _ _ _ d f _ => f ++ "/" ++ norm d | _ => "" end.
 Definition r_validate l := match l with Remote _ _ _ _ _ v => v | _ => false end.
 Definition underscore (s : string) : string := replace_char "-"%char "_"%char s.
+Definition hyphenate (s : string) : string := replace_char "_"%char "-"%char s.
